@@ -226,17 +226,20 @@ func prepare() *Build {
 	root := scratchRoot()
 	os.MkdirAll(root, 0755)
 	dir := filepath.Join(root, "b-"+key)
-	// garbage-collect slots of other trees that nobody is using
+	// Every run holds a shared lock on <slot>.lock for its whole life; building is serialised
+	// by a second lock.  A slot of another tree is garbage-collected only when an exclusive
+	// lock can be taken on its .lock file, i.e. when no run is using it (the lock file itself
+	// is kept, so that its inode stays the meeting point).
 	if ents, err := os.ReadDir(root); err == nil {
 		for _, e := range ents {
-			if !strings.HasPrefix(e.Name(), "b-") || e.Name() == "b-"+key {
+			if !e.IsDir() || !strings.HasPrefix(e.Name(), "b-") || e.Name() == "b-"+key {
 				continue
 			}
 			old := filepath.Join(root, e.Name())
 			if lf, err := os.OpenFile(old+".lock", os.O_CREATE|os.O_RDWR, 0644); err == nil {
 				if syscall.Flock(int(lf.Fd()), syscall.LOCK_EX|syscall.LOCK_NB) == nil {
 					os.RemoveAll(old)
-					os.Remove(old + ".lock")
+					syscall.Flock(int(lf.Fd()), syscall.LOCK_UN)
 				}
 				lf.Close()
 			}
@@ -246,10 +249,17 @@ func prepare() *Build {
 	if err != nil {
 		fatal2("lock: %v", err)
 	}
-	// exclusive while building, shared while running
-	if err := syscall.Flock(int(lf.Fd()), syscall.LOCK_EX); err != nil {
+	if err := syscall.Flock(int(lf.Fd()), syscall.LOCK_SH); err != nil {
 		fatal2("flock: %v", err)
 	}
+	bl, err := os.OpenFile(dir+".build.lock", os.O_CREATE|os.O_RDWR, 0644)
+	if err != nil {
+		fatal2("lock: %v", err)
+	}
+	if err := syscall.Flock(int(bl.Fd()), syscall.LOCK_EX); err != nil {
+		fatal2("flock: %v", err)
+	}
+	defer bl.Close()
 	b := &Build{Dir: dir, Bin: filepath.Join(dir, "bin", "harness.test"), lock: lf}
 	if _, err := os.Stat(filepath.Join(dir, "ok")); err == nil {
 		b.Reused = true
@@ -295,8 +305,6 @@ func prepare() *Build {
 	if raw, err := os.ReadFile(filepath.Join(dir, "src", "instrument_stats.json")); err == nil {
 		json.Unmarshal(raw, &b.InstStats)
 	}
-	// downgrade to a shared lock
-	syscall.Flock(int(lf.Fd()), syscall.LOCK_SH)
 	b.Seconds = time.Since(start).Seconds()
 	return b
 }
@@ -314,6 +322,7 @@ type jobResult struct {
 	outcomes []Outcome
 	info     *Info
 	crashed  bool
+	noStart  bool // the worker binary could not be started: infrastructure, never a violation
 	timedOut bool
 	begun    int // index last begun without result, or -1
 	stderr   string
@@ -351,6 +360,7 @@ func runJob(b *Build, job Job, timeout time.Duration, gomaxprocs int) jobResult 
 	res := jobResult{begun: -1}
 	if err := cmd.Start(); err != nil {
 		res.crashed = true
+		res.noStart = true
 		res.stderr = err.Error()
 		return res
 	}
@@ -546,7 +556,11 @@ func doRun(o runOpts) int {
 			}
 			if len(j.Indices) == 1 {
 				idx := j.Indices[0]
-				if r.timedOut {
+				if r.noStart {
+					if len(infra) < 20 {
+						infra = append(infra, fmt.Sprintf("index %d: the worker could not be started: %s", idx, r.stderr))
+					}
+				} else if r.timedOut {
 					infra = append(infra, fmt.Sprintf("index %d: worker killed by the watchdog after %v", idx, r.wall.Round(time.Second)))
 				} else {
 					outcomes = append(outcomes, Outcome{Index: idx, Status: "crash", Class: o.prop + "/process-crash",
